@@ -823,4 +823,152 @@ theorem readHandshake_spec (L : LimitsD) (lib : LibD) (h13 : 13 ≤ L.hdr) (h12 
   fragLoop_spec L lib h13 h12 hdec s 0
 
 
+/-- an iteration that does not end in an error went through its first `readUntil` -/
+theorem fragStep_first (L : LimitsD) (lib : LibD) (s : StD)
+    (h : (fragStep L lib s).2 = .more ∨ ∃ x, (fragStep L lib s).2 = .done (.ok x)) :
+    (readUntil L lib s L.hsHdr).2 = .ok () := by
+  unfold fragStep at h
+  generalize readUntil L lib s L.hsHdr = q at *
+  obtain ⟨s1, r1⟩ := q
+  cases r1 with
+  | ok u => rfl
+  | err e => simp at h
+  | panic => simp at h
+
+/-- `readHandshake` that starts without a buffered header and delivers a message consumed input -/
+theorem fragLoop_progress (L : LimitsD) (lib : LibD) (h13 : 13 ≤ L.hdr) (h12 : 12 ≤ L.hsHdr) (hdec : DecLen lib)
+    (s : StD) (reads0 : Nat) (hl : s.hand.length < L.hsHdr) (x : UInt8 × Nat)
+    (hok : (fragLoop L lib s reads0).2 = .ok x) : (fragLoop L lib s reads0).1.mu < s.mu := by
+  unfold fragLoop at hok ⊢
+  simp only at hok ⊢
+  split at hok
+  · simp at hok
+  rename_i hle
+  rw [if_neg hle]
+  have fs := (fragStep_spec L lib h13 h12 hdec s).1
+  cases hst : fragStep L lib s with
+  | mk s1 p =>
+    rw [hst] at fs hok
+    cases p with
+    | done r =>
+      simp only at hok ⊢
+      subst hok
+      have := fragStep_first L lib s (Or.inr ⟨x, by rw [hst]⟩)
+      exact fs.mu_lt hl this
+    | more =>
+      simp only at hok ⊢
+      have hfirst := fragStep_first L lib s (Or.inl (by rw [hst]))
+      have h1 : s1.mu < s.mu := fs.mu_lt hl hfirst
+      split
+      · have := (fragLoop_spec L lib h13 h12 hdec s1 (reads0 + 1)).mu_le
+        omega
+      · rename_i hn; exfalso; omega
+
+theorem cookieLoop_spec (L : LimitsD) (lib : LibD) (h13 : 13 ≤ L.hdr) (h12 : 12 ≤ L.hsHdr) (hdec : DecLen lib)
+    (s : StD) (k : Nat) : (cookieLoop L lib s k).2 ≠ .panic ∧ (cookieLoop L lib s k).2 ≠ .err .stuck ∧
+      (cookieLoop L lib s k).1.mu ≤ s.mu := by
+  induction s, k using cookieLoop.induct L lib with
+  | case1 s k h => unfold cookieLoop; simp [h]
+  | case2 s k h s0 s1 t n hr hne =>
+    unfold cookieLoop
+    simp only [h, Bool.false_eq_true, ↓reduceIte]
+    simp only [s0] at hr
+    simp only [hr, hne, ↓reduceIte]
+    have sp := readHandshake_spec L lib h13 h12 hdec { s with hand := [], raw := [] }
+    rw [hr] at sp
+    have : s1.mu ≤ StD.mu { s with hand := [], raw := [] } := sp.mu_le
+    refine ⟨by simp, by simp, ?_⟩
+    simp only [StD.mu, List.length_nil] at this ⊢
+    omega
+  | case3 s k h s0 s1 t n hr hne hlt ih =>
+    unfold cookieLoop
+    simp only [h, Bool.false_eq_true, ↓reduceIte]
+    simp only [s0] at hr
+    simp only [hr, hne, Bool.false_eq_true, ↓reduceIte, hlt, ↓reduceDIte]
+    exact ⟨ih.1, ih.2.1, by have := ih.2.2; omega⟩
+  | case4 s k h s0 s1 t n hr hne hnlt =>
+    exfalso
+    simp only [s0] at hr
+    have hp := fragLoop_progress L lib h13 h12 hdec { s with hand := [], raw := [] } 0 (by simp only [List.length_nil]; omega) (t, n)
+      (by show (readHandshake L lib _).2 = _; rw [hr])
+    have e : (fragLoop L lib { s with hand := [], raw := [] } 0).1 = s1 := by
+      show (readHandshake L lib _).1 = _; rw [hr]
+    rw [e] at hp
+    simp only [StD.mu, List.length_nil] at hp hnlt
+    omega
+  | case5 s k h s0 s1 e hr =>
+    unfold cookieLoop
+    simp only [h, Bool.false_eq_true, ↓reduceIte]
+    simp only [s0] at hr
+    simp only [hr]
+    have sp := readHandshake_spec L lib h13 h12 hdec { s with hand := [], raw := [] }
+    rw [hr] at sp
+    have : s1.mu ≤ StD.mu { s with hand := [], raw := [] } := sp.mu_le
+    have ns : Outcome.err e ≠ Outcome.err Why.stuck := sp.no_stuck
+    refine ⟨by simp, ?_, ?_⟩
+    · intro hh; injection hh with hh; subst hh; exact ns rfl
+    · simp only [StD.mu, List.length_nil] at this ⊢; omega
+  | case6 s k h s0 s1 hr =>
+    exfalso
+    simp only [s0] at hr
+    have sp := readHandshake_spec L lib h13 h12 hdec { s with hand := [], raw := [] }
+    rw [hr] at sp
+    exact sp.no_panic rfl
+
+/-! ### sequences of receive operations -/
+
+/-- the memory invariant of the datagram stack after `k` calls of readHandshake -/
+def MemInvD (L : LimitsD) (Bh M k : Nat) (s : StD) : Prop :=
+  s.raw.length ≤ L.maxCiphertext + L.hdr ∧ s.hand.length ≤ Bh ∧ s.pending.length ≤ L.maxFragments * k ∧ PendOk M s.pending
+
+def hsCount : List OpD → Nat
+  | [] => 0
+  | .hs :: ops => hsCount ops + 1
+  | _ :: ops => hsCount ops
+
+theorem applyD_inv (L : LimitsD) (lib : LibD) (h13 : 13 ≤ L.hdr) (h12 : 12 ≤ L.hsHdr) (hdec : DecLen lib)
+    (hrf : L.refusePostHs = true) (hg : L.deliveredGuard = true) (Bh M : Nat)
+    (hBh : L.hsHdr + L.maxHandshake + (L.maxCiphertext + L.hdr) ≤ Bh + 1) (hM : L.maxHandshake ≤ M) (h1 : 1 ≤ M)
+    (s : StD) (op : OpD) (k : Nat) (hi : MemInvD L Bh M k s) :
+    MemInvD L Bh M (k + (if op = .hs then 1 else 0)) (applyD L lib s op) := by
+  obtain ⟨ir, ih, ip, io⟩ := hi
+  cases op with
+  | hs =>
+    have sp := readHandshake_spec L lib h13 h12 hdec s
+    refine ⟨sp.raw_D ir, sp.hand_le Bh hg ir ih hBh, ?_, sp.pend_ok M hM h1 io⟩
+    show (readHandshake L lib s).1.pending.length ≤ L.maxFragments * (k + 1)
+    rcases sp.pend_len with h | h
+    · rw [Nat.mul_add]; omega
+    · rw [Nat.mul_add]; omega
+  | finish =>
+    refine ⟨ir, ih, ?_, ?_⟩
+    · show ([] : List PBuf).length ≤ _; simp
+    · intro b hb; cases hb
+  | read =>
+    show MemInvD L Bh M (k + 0) (if s.complete = true then (readRecord L lib { s with readBuf := 0 } false).1 else s)
+    split
+    · rename_i hc
+      have sp := readRecord_spec L lib h13 hdec { s with readBuf := 0 } false
+      refine ⟨sp.raw_D ir, ?_, ?_, ?_⟩
+      · rw [sp.frozen hc hrf]; exact ih
+      · rw [sp.pending_eq]; exact ip
+      · rw [sp.pending_eq]; exact io
+    · exact ⟨ir, ih, ip, io⟩
+
+theorem runD_inv (L : LimitsD) (lib : LibD) (h13 : 13 ≤ L.hdr) (h12 : 12 ≤ L.hsHdr) (hdec : DecLen lib)
+    (hrf : L.refusePostHs = true) (hg : L.deliveredGuard = true) (Bh M : Nat)
+    (hBh : L.hsHdr + L.maxHandshake + (L.maxCiphertext + L.hdr) ≤ Bh + 1) (hM : L.maxHandshake ≤ M) (h1 : 1 ≤ M)
+    (ops : List OpD) (s : StD) (k : Nat) (hi : MemInvD L Bh M k s) :
+    MemInvD L Bh M (k + hsCount ops) (runD L lib s ops) := by
+  induction ops generalizing s k with
+  | nil => exact hi
+  | cons op ops ih =>
+    unfold runD
+    have h := applyD_inv L lib h13 h12 hdec hrf hg Bh M hBh hM h1 s op k hi
+    have := ih _ _ h
+    cases op with
+    | hs => simp only [hsCount, ↓reduceIte] at this ⊢; rw [show k + (hsCount ops + 1) = k + 1 + hsCount ops by omega]; exact this
+    | finish => simp only [hsCount, reduceCtorEq, ↓reduceIte, Nat.add_zero] at this ⊢; exact this
+    | read => simp only [hsCount, reduceCtorEq, ↓reduceIte, Nat.add_zero] at this ⊢; exact this
+
 end Gotlcp.Lemmas.ParsersLoopD
